@@ -3,6 +3,7 @@ package isaacdatabase
 import (
 	"github.com/pkg/errors"
 	"github.com/spikeekips/mitum/base"
+	"github.com/spikeekips/mitum/storage"
 	leveldbstorage "github.com/spikeekips/mitum/storage/leveldb"
 	"github.com/spikeekips/mitum/util"
 	"github.com/spikeekips/mitum/util/encoder"
@@ -86,7 +87,12 @@ func (db *LeveldbTempSyncPool) Cancel() error {
 		db.Lock()
 		defer db.Unlock()
 
-		r := leveldbutil.BytesPrefix(pst.Prefix())
+		prefix := pst.Prefix()
+		if prefix == nil { // NOTE nil prefix covers all the prefixes
+			return storage.ErrClosed.WithStack()
+		}
+
+		r := leveldbutil.BytesPrefix(prefix)
 
 		_, err := leveldbstorage.BatchRemove(pst.Storage, r, 333) //nolint:mnd //...
 
